@@ -4,12 +4,13 @@
 (* recorded call.  Verdicts are total: every step yields the set of failing *)
 (* clauses (property level "Cxx_*", implementation level "I_*") and the set *)
 (* of non-trivial situations it exercised ("N_*"), printed as one line.     *)
-EXTENDS Props, Json, IOUtils, TLCExt
+EXTENDS Props, StageOps, Json, IOUtils, TLCExt
 
 Traces == JsonDeserialize(IOEnv.TRACE_FILE)
 
-VARIABLES tid, l, fails, marks, cur     \* cur: the recorded trace being replayed (read once)
-tvars == <<tid, l, fails, marks, cur>>
+VARIABLES tid, l, fails, marks, cur,    \* cur: the recorded trace being replayed (read once)
+          stg                          \* state of the call-order machine (StageOps), stepped by the spec
+tvars == <<tid, l, fails, marks, cur, stg>>
 View == <<tid, l>>
 
 Chk(name, cond) == IF cond THEN {} ELSE {name}
@@ -181,6 +182,30 @@ ExcFails(ev, pre, post, tr) ==
   Chk("C14_RefusalJustified", ev.op = "construct" \/ MayRefuse(ev, pre)) \cup
   Chk("C08_Total", ~tr.desc.indomain \/ ev.op = "construct" \/ MayRefuse(ev, pre))
 
+(* C14: every present table / message equals the one of the canonical run, the *)
+(* isolated / ncomp column being the fresh or the annotated one according to  *)
+(* the call-order machine                                                      *)
+StripX(tb) == [r \in Idx(tb) |-> [tb[r] EXCEPT !.x = 0]]
+XOk(tb, ctb, mode, freshval) ==
+  Len(tb) = Len(ctb) /\ \A r \in Idx(tb) : tb[r].x = (IF mode = "fresh" THEN freshval ELSE ctb[r].x)
+CanonFails(ev, post, tr, s2) ==
+  IF ~tr.canon.has \/ ev.res # "ok" \/ ev.op = "construct" THEN {}
+  ELSE LET c == tr.canon IN
+    Chk("C14_CanonSlices", post.hast.slices => StripX(post.tbl.slices) = StripX(c.tbl.slices)) \cup
+    Chk("C14_CanonGroups", post.hast.groups => StripX(post.tbl.groups) = StripX(c.tbl.groups)) \cup
+    Chk("C14_CanonLayers", post.hast.layers => StripX(post.tbl.layers) = StripX(c.tbl.layers)) \cup
+    Chk("C14_CanonIsolated", post.hast.slices => XOk(post.tbl.slices, c.tbl.slices, s2.sl, 1)) \cup
+    Chk("C14_CanonNcomp", post.hast.groups => XOk(post.tbl.groups, c.tbl.groups, s2.gr, -1)) \cup
+    Chk("C14_CanonIds", /\ (post.has.s => post.ids.s = c.ids.s) /\ (post.has.g => post.ids.g = c.ids.g)
+                        /\ (post.has.l => post.ids.l = c.ids.l)) \cup
+    Chk("C14_CanonMsg", ev.op = "metar_msg" => ev.msg = c.msg[ev.arg]) \cup
+    Chk("I_StageTables", /\ post.hast.slices = (s2.sl # "absent") /\ post.hast.groups = (s2.gr # "absent")
+                         /\ post.hast.layers = (s2.la # "absent")
+                         /\ post.has.s = s2.hs /\ post.has.g = s2.hg /\ post.has.l = s2.hl)
+StageFails(ev, tr, s1) ==
+  IF ~tr.canon.has \/ ev.op = "construct" THEN {}
+  ELSE Chk("I_StageRefuse", (ev.res = "exc") <=> StageRefuses(s1, ev.op, ev.arg, tr.canon.ng))
+
 EventFails(i, k) ==
   LET tr == T(i)  ev == tr.events[k]  pre == Pre(i, k)  post == ev  prm == tr.prm
       tabs == UNION { IF post.hast[w] /\ post.has[F(w)] /\ ev.tchg[w]
@@ -217,10 +242,12 @@ EventMarks(i, k) ==
         ELSE {})
 
 Init == LET all == Traces IN
-        \E i \in DOMAIN all : tid = i /\ cur = all[i] /\ l = 0 /\ fails = {} /\ marks = {}
+        \E i \in DOMAIN all : tid = i /\ cur = all[i] /\ l = 0 /\ fails = {} /\ marks = {} /\ stg = StageInit
 Next == /\ l < Len(T(tid).events)
         /\ l' = l + 1 /\ tid' = tid /\ cur' = cur
-        /\ fails' = EventFails(tid, l + 1)
+        /\ LET ev == cur.events[l + 1] IN
+           /\ stg' = IF ev.op = "construct" \/ ~cur.canon.has THEN stg ELSE StageNext(stg, ev.op, ev.arg, cur.canon.ng)
+           /\ fails' = EventFails(tid, l + 1) \cup StageFails(ev, cur, stg) \cup CanonFails(ev, ev, cur, stg')
         /\ marks' = EventMarks(tid, l + 1)
         /\ PrintT(<<"V", T(tid).tid, l + 1, fails', marks'>>)
 Spec == Init /\ [][Next]_tvars
